@@ -44,19 +44,19 @@ except ImportError:
 
 
 def get_good_c(s, mask, nb_initial_samples, use_c=False, **kwargs):
-    if nb_initial_samples > len(s):
-        nb_initial_samples = len(s)
     mask_size = np.sum(mask)
+    if nb_initial_samples > mask_size:
+        nb_initial_samples = mask_size
     cs = []
-    randthr = nb_initial_samples / mask_size
+    seen = 0  # number of selected series already considered
     for i in range(len(s)):
         if mask[i]:
+            randthr = (nb_initial_samples - len(cs)) / (mask_size - seen)
             if random.random() <= randthr:
                 cs.append(s[i])
+            seen += 1
         if len(cs) == nb_initial_samples:
             break
-        else:
-            randthr = (nb_initial_samples - len(cs)) / (mask_size - i - 1)
     d = distance_matrix(cs, use_c=use_c,  **kwargs)
     d = d.sum(axis=1)
     best_i = np.argmin(d)
